@@ -1561,7 +1561,7 @@ Proof.
 Qed.
 
 Lemma case_inter_implicit : forall ks, Forall gsound ks ->
-  gsound (PNode "geometry_term" ["geometry_term"; "geometry_factory"] ks).
+  gsound (PNode "geometry_term" ["geometry_term"; "geometry_factor"] ks).
 Proof.
   start_case. ih_all.
   exists (act_intersection g0 g). split; [rewrite Hact, Hact0; reflexivity|].
@@ -1641,7 +1641,7 @@ Definition ex_ptree : ptree :=
   PNode "geometry_expr" ["geometry_term"]
     [PNode "geometry_term" ["geometry_term"; "padding"; "geometry_factor"]
        [PNode "geometry_term" ["geometry_term"; "padding"; "geometry_factor"]
-          [PNode "geometry_term" ["geometry_term"; "geometry_factory"]
+          [PNode "geometry_term" ["geometry_term"; "geometry_factor"]
              [PNode "geometry_term" ["geometry_term"; "padding"]
                 [pt_f2t (PNode "geometry_factory" ["("; "padding"; "geometry_expr"; ")"]
                            [PTok SLP; pt_sp;
@@ -1652,13 +1652,33 @@ Definition ex_ptree : ptree :=
                                PNode "geometry_term" ["geometry_term"; "padding"] [pt_f2t (pt_num false 2); pt_sp]];
                             PTok SRP]);
                  pt_sp];
-              pt_num true 3];
+              PNode "geometry_factor" ["geometry_factory"] [pt_num true 3]];
            pt_sp;
            PNode "geometry_factor" ["COMPLEMENT"; "geometry_factory"] [PTok SHash; pt_num true 5]];
         pt_sp;
         PNode "geometry_factor" ["COMPLEMENT"; "geometry_factory"]
           [PTok SHash; PNode "geometry_factory" ["("; "geometry_expr"; ")"]
                          [PTok SLP; PNode "geometry_expr" ["geometry_term"] [pt_f2t (pt_num true 4)]; PTok SRP]]]]%string.
+
+(* "(1:2)#3": a complement directly after a closing parenthesis (implicit intersection with a factor) *)
+Definition ex_ptree2 : ptree :=
+  PNode "geometry_expr" ["geometry_term"]
+    [PNode "geometry_term" ["geometry_term"; "geometry_factor"]
+       [pt_f2t (PNode "geometry_factory" ["("; "geometry_expr"; ")"]
+                  [PTok SLP;
+                   PNode "geometry_expr" ["geometry_expr"; "union"; "geometry_term"]
+                     [PNode "geometry_expr" ["geometry_term"] [pt_f2t (pt_num true 1)];
+                      PNode "union" [":"] [PTok SColon];
+                      pt_f2t (pt_num true 2)];
+                   PTok SRP]);
+        PNode "geometry_factor" ["COMPLEMENT"; "geometry_factory"] [PTok SHash; pt_num true 3]]]%string.
+
+Lemma ex_ptree2_ok :
+  pwf cell_productions ex_ptree2 = true /\ proot ex_ptree2 = "geometry_expr"%string /\
+  uses_shortcut ex_ptree2 = false /\ hash_neg (pyield ex_ptree2) = false /\
+  strip (pyield ex_ptree2) = [TLParen; TLeaf true 1; TColon; TLeaf true 2; TRParen; TCompl 3]%Z /\
+  option_map sem_tree (pact ex_ptree2) = Some (BAnd (BOr (BSurf true 1) (BSurf true 2)) (BCompl 3))%Z.
+Proof. vm_compute. repeat split; reflexivity. Qed.
 
 Lemma ex_ptree_ok :
   pwf cell_productions ex_ptree = true /\ proot ex_ptree = "geometry_expr"%string /\
